@@ -72,8 +72,15 @@ func c15RenderObjs(objs []metav1.Object) (string, string) {
 func TestC15_Snapshots(t *testing.T) {
 	rapid.Check(t, func(t *rapid.T) {
 		m := rapid.IntRange(1, 6).Draw(t, "objects")
+		if rapid.IntRange(0, 3).Draw(t, "large") == 0 {
+			// large states: a relist or refilter of hundreds of objects is one atomic step as well
+			m = rapid.IntRange(60, 300).Draw(t, "manyObjects")
+		}
 		nreaders := rapid.IntRange(1, 12).Draw(t, "readers")
 		nsteps := rapid.IntRange(10, 160).Draw(t, "steps")
+		if m > 6 && nsteps > 40 {
+			nsteps = 40
+		}
 		readerSeed := rapid.Uint64().Draw(t, "readerSeed")
 		steps := make([]c15Step, nsteps)
 		for i := range steps {
@@ -318,11 +325,11 @@ func TestC15_Snapshots(t *testing.T) {
 			t.Fatalf("C15 violation: %s", werr)
 		}
 		desc := fmt.Sprintf("m=%d readers=%d steps=%v", m, nreaders, steps)
-		nt := nreaders >= 4 && nsteps >= 50 && nrefilter >= 1
+		nt := nreaders >= 4 && (nsteps >= 50 || m > 6) && nrefilter >= 1
 		nreads := atomic.LoadInt64(&reads)
 		statCase("C15", hashString(desc), nt, func() interface{} {
 			return map[string]interface{}{"objects": m, "readers": nreaders, "writer_calls": nsteps, "refilters": nrefilter, "reads_checked": nreads, "first_steps": fmt.Sprint(steps[:min(8, len(steps))])}
-		}, fmt.Sprintf("readers_ge4=%v", nreaders >= 4))
+		}, fmt.Sprintf("readers_ge4=%v", nreaders >= 4), fmt.Sprintf("large_state=%v", m > 6))
 		statExtraAdd("C15", "reads_checked", nreads)
 	})
 }
